@@ -81,6 +81,76 @@ def rig_p(chk, tier, seed):
     chk.floor("distinct_auth_param_offsets", len(offs), 10)
 
 
+def raw_worker(job):
+    """The socket object used directly (what the Python sessions do internally, in other orders): created with the
+    real credentials and no engine id, engine id learnt from the first accepted reply, then set_keys() again - with
+    the same or with other credentials, once or twice, before or after the discovery.  Every datagram sent after a
+    set_keys() that followed the discovery must carry a MAC under the key localized to the engine id it names."""
+    import gufo.snmp  # noqa: F401
+    from gufo.snmp._fast import SnmpV3ClientSocket
+    from vlib import ber_ref as B, rigp
+    rng = random.Random(job["seed"])
+    res = {"cases": 0, "datagrams": 0, "bad": [], "inconclusive": []}
+    for au, pr, kt in job["combos"]:
+        cfg = rigp.Cfg("v3", user="raw-%s" % au, auth=au, priv=pr, auth_kt=kt, priv_kt=kt, auth_pw=b"raw-auth-pass-%d" % rng.randrange(100),
+                       priv_pw=b"raw-priv-pass-%d" % rng.randrange(100))
+        box = {"reqs": []}
+
+        def handler(agent, req, box=box):
+            box["reqs"].append(req)
+            if not req.ok:
+                return None
+            return agent.discovery_or(req, lambda q: agent.reply(q, [B.enc_varbind((1, 3, 6, 1, 2, 1, 1, 5, 0), B.enc_int(7))]))
+        eng = bytes([0x80, 0, 0x1F, 0x88] + [rng.randrange(256) for _ in range(rng.choice([1, 8, 13, 28]))])
+        agent = rigp.Agent(handler, engine_id=eng, users=[cfg.user_keys()]).start()
+        u = rigp.make_user(cfg, eng)
+        other = rigp.make_user(rigp.Cfg("v3", user=cfg.user, auth=au, priv=pr, auth_kt=kt, priv_kt=kt, auth_pw=b"another-pass", priv_pw=b"another-priv"), eng)
+        creds = (u.name, u.get_auth_alg(), u.get_auth_key(), u.get_priv_alg(), u.get_priv_key())
+        ocreds = (other.name, other.get_auth_alg(), other.get_auth_key(), other.get_priv_alg(), other.get_priv_key())
+        for order in job["orders"]:
+            res["cases"] += 1
+            box["reqs"] = []
+            try:
+                sock = SnmpV3ClientSocket("127.0.0.1:%d" % agent.port, b"", *creds, 0, 0, 0, 1_000_000_000)
+                judged_from = None
+                for step in order:
+                    if step == "refresh":
+                        sock.send_refresh()
+                        sock.recv_refresh()
+                    elif step == "same":
+                        sock.set_keys(*creds)
+                        if sock.get_engine_id() == eng:
+                            judged_from = len(box["reqs"])
+                    elif step == "other":
+                        sock.set_keys(*ocreds)
+                        judged_from = None
+                    elif step == "get":
+                        sock.send_get("1.3.6.1.2.1.1.5.0")
+                        try:
+                            sock.recv_get()
+                        except Exception:
+                            pass
+            except (BlockingIOError, TimeoutError):
+                res["inconclusive"].append("raw socket history %s timed out (load?) - agent saw %s" % (order, [(r.ok, r.err) for r in box["reqs"]][-2:]))
+                continue
+            except BaseException as e:
+                res["bad"].append({"sig": "raw:exception", "msg": "[%s/%s/%s] raw socket history %s raised %r" % (au, pr, kt, order, e)})
+                continue
+            import time
+            time.sleep(0.01)
+            for k, rq in enumerate(box["reqs"]):
+                if judged_from is None or k < judged_from:
+                    continue
+                res["datagrams"] += 1
+                if not rq.ok:
+                    res["bad"].append({"sig": "raw:strict", "msg": "[%s/%s/%s] history %s: datagram %d malformed: %s" % (au, pr, kt, order, k, rq.err)})
+                elif rq.m["usm"]["engine_id"] == eng and not (rq.m["flags"] & 1 and rq.mac_ok):
+                    res["bad"].append({"sig": "raw:mac", "msg": "[%s/%s/%s] history %s: datagram %d names engine id %s with auth flag %d but its HMAC-96 does not verify "
+                                       "under the user's key localized to that engine id" % (au, pr, kt, order, k, eng.hex(), rq.m["flags"] & 1), "datagram": rq.raw.hex()})
+        agent.stop()
+    return res
+
+
 def main():
     a = runner.main_args()
     chk = runner.Check(PID, "exploration", a.tier, a.seed)
@@ -93,6 +163,30 @@ def main():
     chk.assumptions = ["hashlib/hmac are correct", "reference key localization (RFC 3414 A.2, self-tested on A.3 vectors)"]
     C.self_test(cross=False)
     rig_p(chk, a.tier, a.seed)
+    # (without privacy: a probe *encrypted* before the engine id is known is a state the Python layer never produces, and
+    # what key it should use is nobody's statement)
+    combos = [(au, None, kt) for au in ("md5", "sha1") for kt in ("password", "master")]
+    orders = [["refresh", "same", "get", "get"], ["same", "refresh", "same", "get"], ["refresh", "same", "same", "get"], ["refresh", "other", "same", "get"],
+              ["refresh", "get", "same", "get", "same", "get"], ["same", "same", "refresh", "same", "get", "get"]]
+    rj = [{"seed": a.seed * 17 + i, "combos": combos[i::4], "orders": orders * (1 if a.tier == "quick" else 20)} for i in range(4)]
+    outs = runner.run_workers("checks.c09", "raw_worker", rj, variant="rel", timeout=1200)
+    raw = {"cases": 0, "datagrams": 0}
+    for o in outs:
+        res = o["result"]
+        if res is None:
+            chk.violation("abort:raw", "raw-socket worker died rc=%s: %s" % (o["rc"], o["stderr"][-300:]), {})
+            continue
+        if "harness_error" in res:
+            raise runner.HarnessError(res["harness_error"])
+        for x in res["inconclusive"][:3]:
+            chk.inconc(x)
+        raw["cases"] += res["cases"]
+        raw["datagrams"] += res["datagrams"]
+        for b in res["bad"]:
+            chk.violation(b["sig"], b["msg"], b)
+    chk.extra["raw_socket_histories"] = raw
+    chk.distinct.add("raw-socket-histories")
+    chk.seen(raw["datagrams"])
     rig_r(chk, a.tier, a.seed)
     sys.exit(chk.finish())
 
